@@ -57,6 +57,8 @@ func report(prop, tier string, seed int, results []*harnessResult, loadDur, wall
 	}
 	var inconclusive []string
 	totalPaths, totalInstrs, totalQueries, totalUnknown := 0, 0, 0, 0
+	crossQueries := 0
+	var crossTime time.Duration
 	var solverTime time.Duration
 	funcs := map[string]bool{}
 	stubsUsed := map[string]bool{}
@@ -72,6 +74,8 @@ func report(prop, tier string, seed int, results []*harnessResult, loadDur, wall
 		totalQueries += r.queries
 		totalUnknown += r.unknowns
 		solverTime += r.solverTime
+		crossQueries += r.crossQueries
+		crossTime += r.crossTime
 		for _, f := range r.funcs {
 			funcs[f] = true
 		}
@@ -356,7 +360,9 @@ func report(prop, tier string, seed int, results []*harnessResult, loadDur, wall
 			"solver_unknown":                totalUnknown,
 			"solver_time_s":                 solverTime.Seconds(),
 			"load_ssa_s":                    loadDur.Seconds(),
-			"solvers":                       []string{"z3 (incremental, one process per harness)"},
+			"solvers":                       solversUsed(crossQueries),
+			"second_solver_queries":         crossQueries,
+			"second_solver_time_s":          crossTime.Seconds(),
 			"harnesses":                     len(results),
 			"functions_encoded_pion_turn":   turnFuncs,
 			"functions_encoded_total":       len(flist),
@@ -382,6 +388,13 @@ func report(prop, tier string, seed int, results []*harnessResult, loadDur, wall
 	fmt.Printf("%s tier=%s harnesses=%d paths=%d obligations=%d discharged=%d queries=%d solver=%.1fs wall=%.1fs -> exit %d\n",
 		prop, tier, len(results), totalPaths, obligations, discharged, totalQueries, solverTime.Seconds(), wall.Seconds(), code)
 	return code
+}
+
+func solversUsed(cross int) []string {
+	if cross > 0 {
+		return []string{"z3 4.8.12 (incremental, one process per path worker)", "z3 5.1.0 (same queries decided again; verdicts compared per obligation)"}
+	}
+	return []string{"z3 4.8.12 (incremental, one process per path worker)"}
 }
 
 func sanitize(s string) string {
